@@ -13,6 +13,8 @@
 (*     IsEncodingOf(buf, arr)  =>  WellFormed /\ Valid /\ CSegDecode = arr   *)
 (*     (the oracle is not vacuous: it accepts EVERY legal encoding and       *)
 (*      recovers the array);                                                 *)
+(*  EncodingAccepted  : the decoder automaton reads every legal encoding    *)
+(*                      back (whole run folded into one evaluation);         *)
 (*  ParseTotal        : the automaton ends in Done or Error, never Crash     *)
 (*                      (must FAIL with ChannelSlice = "next_unchecked");    *)
 (*  ParseAgrees       : Valid(buf) => Done /\ out = CSegDecode(buf), for     *)
@@ -21,23 +23,16 @@
 (*  ParseComplete     : Done => every voxel was written;                     *)
 (*  MacroEqualsSteps  : the fold ParseOutcome used by Trace_CSeg equals the  *)
 (*                      stepwise automaton.                                  *)
-EXTENDS CSeg
+EXTENDS CSegScope
 
 CONSTANT CfgSpace      \* overridden in the .cfg files
 
 VARIABLES cfg, arr, enc, ech, eb, phase, mut, B, st
 vars == <<cfg, arr, enc, ech, eb, phase, mut, B, st>>
 
-LabelPool(wpl) ==
-  IF wpl = 1 THEN << <<1, 0>>, <<0, 1>>, <<65535, 65535>> >>
-  ELSE << <<7, 0, 0, 0>>, <<0, 0, 1, 0>>, <<65535, 65535, 65535, 65535>> >>
-NLabels(c) == c.C * NVox(c)
-ArrOf(c, f) == FlattenSeq([v \in 1..NLabels(c) |-> LabelPool(c.wpl)[f[v] + 1]])
 \* arrs = "all": every array over K labels; "ramp": two fixed patterns
 ArrFuns(c) ==
-  IF c.arrs = "all" THEN [1..NLabels(c) -> 0..(c.K - 1)]
-  ELSE {[v \in 1..NLabels(c) |-> (v - 1) % c.K],
-        [v \in 1..NLabels(c) |-> ((v - 1) \div 2) % c.K]}
+  IF c.arrs = "all" THEN [1..NLabels(c) -> 0..(c.K - 1)] ELSE RampFuns(c, c.K)
 
 NoBuf == [n |-> 0, h |-> << >>]
 NoParse == [pc |-> "Idle"]
@@ -58,10 +53,15 @@ StartChannel ==
 
 ChanOff == enc.h[2 * ech + 1] + 65536 * enc.h[2 * ech + 2]
 
+\* any order of the block's labels; in the mutate configurations only the
+\* sorted one (there the subject is the reader, not the encoder family)
+TableOrders(S) == IF cfg.mutate THEN {SetToSortSeq(S, LabelLess)} ELSE SetToSeqs(S)
+
 EncodeBlock ==
   /\ phase = "enc" /\ eb >= 0
-  /\ \E t \in SetToSeqs(BlockLabels(arr, cfg, ech, eb)), share \in BOOLEAN :
+  /\ \E t \in TableOrders(BlockLabels(arr, cfg, ech, eb)), share \in BOOLEAN :
        /\ share => \E k \in 1..Len(enc.tabs) : enc.tabs[k].t = t
+       /\ cfg.mutate => (share <=> \E k \in 1..Len(enc.tabs) : enc.tabs[k].t = t)
        /\ LET bits == WidthFor(Len(t), cfg.up)
               padv == IF cfg.padlast THEN Len(t) - 1 ELSE 0
               e2 == EncBlock(enc, arr, cfg, ech, eb, ChanOff, t, share, cfg.tfirst, bits, padv)
@@ -74,8 +74,11 @@ EncodeBlock ==
   /\ UNCHANGED <<cfg, arr, mut, st>>
 
 \* ---- hand the buffer to the reader, possibly mutated ----------------------
+\* (stepwise only in the mutate configurations; everywhere else the unmutated
+\* buffer is parsed in one go by EncodingAccepted below - same automaton, see
+\* MacroEqualsSteps - which keeps the state count in budget)
 StartParse ==
-  /\ phase = "encoded"
+  /\ phase = "encoded" /\ cfg.mutate
   /\ phase' = "parse" /\ st' = ParseInit(cfg)
   /\ UNCHANGED <<cfg, arr, enc, ech, eb, mut, B>>
 
@@ -88,26 +91,53 @@ MutateThenParse ==
   /\ UNCHANGED <<cfg, arr, enc, ech, eb>>
 
 \* ---- decoder automaton: one action per stage and exit (for -coverage) -----
-Stage(pc, wantErr) ==
-  /\ phase = "parse" /\ st.pc = pc
+Stage(wantErr) ==
   /\ (ExitOf(B, cfg, st) # "") = wantErr
   /\ st' = Step(B, cfg, st)
   /\ UNCHANGED <<cfg, arr, enc, ech, eb, phase, mut, B>>
 
-ReadChannelTable_ok  == Stage("ReadChannelTable", FALSE)
-ReadChannelTable_err == Stage("ReadChannelTable", TRUE)
-ChannelStart_ok      == Stage("ChannelStart", FALSE)
-ChannelStart_err     == Stage("ChannelStart", TRUE)
-BlockHeader_ok       == Stage("BlockHeader", FALSE)
-BlockHeader_crash    == Stage("BlockHeader", TRUE)
-CheckBits_ok         == Stage("CheckBits", FALSE)
-CheckBits_err        == Stage("CheckBits", TRUE)
-LocateTable_ok       == Stage("LocateTable", FALSE)
-LocateValues_ok      == Stage("LocateValues", FALSE)
-LocateValues_err     == Stage("LocateValues", TRUE)
-Lookup_ok            == Stage("Lookup", FALSE)
-Lookup_err           == Stage("Lookup", TRUE)
-Emit_ok              == Stage("Emit", FALSE)
+ReadChannelTable_ok ==
+  /\ phase = "parse" /\ st.pc = "ReadChannelTable"
+  /\ Stage(FALSE)
+ReadChannelTable_err ==
+  /\ phase = "parse" /\ st.pc = "ReadChannelTable"
+  /\ Stage(TRUE)
+ChannelStart_ok ==
+  /\ phase = "parse" /\ st.pc = "ChannelStart"
+  /\ Stage(FALSE)
+ChannelStart_err ==
+  /\ phase = "parse" /\ st.pc = "ChannelStart"
+  /\ Stage(TRUE)
+BlockHeader_ok ==
+  /\ phase = "parse" /\ st.pc = "BlockHeader"
+  /\ Stage(FALSE)
+BlockHeader_crash ==
+  /\ phase = "parse" /\ st.pc = "BlockHeader"
+  /\ Stage(TRUE)
+CheckBits_ok ==
+  /\ phase = "parse" /\ st.pc = "CheckBits"
+  /\ Stage(FALSE)
+CheckBits_err ==
+  /\ phase = "parse" /\ st.pc = "CheckBits"
+  /\ Stage(TRUE)
+LocateTable_ok ==
+  /\ phase = "parse" /\ st.pc = "LocateTable"
+  /\ Stage(FALSE)
+LocateValues_ok ==
+  /\ phase = "parse" /\ st.pc = "LocateValues"
+  /\ Stage(FALSE)
+LocateValues_err ==
+  /\ phase = "parse" /\ st.pc = "LocateValues"
+  /\ Stage(TRUE)
+Lookup_ok ==
+  /\ phase = "parse" /\ st.pc = "Lookup"
+  /\ Stage(FALSE)
+Lookup_err ==
+  /\ phase = "parse" /\ st.pc = "Lookup"
+  /\ Stage(TRUE)
+Emit_ok ==
+  /\ phase = "parse" /\ st.pc = "Emit"
+  /\ Stage(FALSE)
 
 Next ==
   \/ StartChannel \/ EncodeBlock \/ StartParse \/ MutateThenParse
@@ -122,6 +152,8 @@ Spec == Init /\ [][Next]_vars
 EncodingWellFormed == phase = "encoded" => WFClause(B, cfg) = "ok"
 EncodingValid      == phase = "encoded" => ValidB(B, cfg)
 EncodingDecodes    == phase = "encoded" => CSegDecodeB(B, cfg) = arr
+EncodingAccepted   == phase = "encoded" =>
+                        ParseOutcome(B, cfg) = [kind |-> "ok", clause |-> "", arr |-> arr]
 Parsed == phase = "parse" /\ Terminal(st)
 ParseTotal    == Parsed => st.pc # "Crash"
 ParseAgrees   == Parsed /\ ValidB(B, cfg) => st.pc = "Done" /\ st.out = CSegDecodeB(B, cfg)
@@ -132,39 +164,30 @@ MacroEqualsSteps == Parsed => ParseOutcome(B, cfg) = Outcome(st)
 UnmutatedAccepted == Parsed /\ mut = NoMut => st.pc = "Done" /\ st.out = arr
 
 \* ---- bounded parameter spaces ----------------------------------------------
-Base(C, X, Y, Z, bx, by, bz, wpl) ==
-  [C |-> C, X |-> X, Y |-> Y, Z |-> Z, bx |-> bx, by |-> by, bz |-> bz, wpl |-> wpl]
 With(b, K, up, tfirst, padlast, arrs, mutate) ==
   [C |-> b.C, X |-> b.X, Y |-> b.Y, Z |-> b.Z, bx |-> b.bx, by |-> b.by, bz |-> b.bz,
    wpl |-> b.wpl, K |-> K, up |-> up, tfirst |-> tfirst, padlast |-> padlast,
    arrs |-> arrs, mutate |-> mutate]
-D2 == 1..2
-Bases(Cs, Ws) == {Base(C, X, Y, Z, bx, by, bz, w) :
-                    C \in Cs, X \in D2, Y \in D2, Z \in D2, bx \in D2, by \in D2, bz \in D2, w \in Ws}
 \* number of labels by total voxel count (keeps 3 labels for <= 4 voxels)
 KFor(b) == IF b.C * b.X * b.Y * b.Z <= 4 THEN 3 ELSE 2
-Small(b, n) == b.C * b.X * b.Y * b.Z <= n
 
-\* encoder family x every array (no mutation)
+\* encoder family x every array (no mutation).  Styles <<up, tfirst, padlast>>.
+Styles == {<<0, TRUE, FALSE>>, <<1, FALSE, TRUE>>, <<5, TRUE, TRUE>>}
 EncSpaceFull ==
-  {With(b, KFor(b), up, tf, pl, "all", FALSE) :
-     b \in {x \in Bases({1, 2}, {1, 2}) : Small(x, 8)},
-     up \in {0, 1, 5}, tf \in BOOLEAN, pl \in BOOLEAN}
+  {With(b, KFor(b), s[1], s[2], s[3], "all", FALSE) :
+     b \in {x \in Bases({1}, {1, 2}) : Small(x, 8)} \cup {x \in Bases({2}, {1, 2}) : Small(x, 4)},
+     s \in Styles} \cup
+  {With(b, 2, 0, TRUE, FALSE, "all", FALSE) : b \in {x \in Bases({2}, {1}) : Small(x, 8) /\ ~Small(x, 4)}}
 EncSpaceQuick ==
-  {With(b, KFor(b), up, tf, tf, "all", FALSE) :
-     b \in {x \in Bases({1, 2}, {1, 2}) : Small(x, 4)} \cup
-           {x \in Bases({1}, {1}) : x.X * x.Y * x.Z = 8 /\ x.bx = x.by /\ x.by # x.bz},
-     up \in {0, 1}, tf \in BOOLEAN}
+  {With(b, KFor(b), 0, TRUE, FALSE, "all", FALSE) :
+     b \in {x \in Bases({1, 2}, {1}) : Small(x, 4)}} \cup
+  {With(b, KFor(b), 1, FALSE, TRUE, "all", FALSE) :
+     b \in {x \in Bases({1}, {2}) : Small(x, 4)}}
 \* mutants of a few encodings
-MutBasesFull ==
-  {Base(1, 2, 2, 2, 2, 2, 2, 1), Base(2, 2, 2, 1, 1, 2, 1, 1), Base(2, 2, 1, 2, 2, 1, 1, 2),
-   Base(1, 2, 2, 2, 1, 1, 2, 2), Base(2, 1, 1, 2, 1, 1, 1, 1), Base(2, 2, 2, 2, 2, 2, 2, 1),
-   Base(1, 2, 1, 1, 2, 2, 2, 1), Base(2, 2, 2, 2, 2, 1, 2, 2)}
 MutSpaceFull ==
-  {With(b, 3, up, TRUE, FALSE, "ramp", TRUE) : b \in MutBasesFull, up \in {0, 2, 5}}
+  {With(b, 3, up, TRUE, FALSE, "ramp", TRUE) : b \in MutBasesFull, up \in {0, 1, 2, 3, 4, 5}}
 MutSpaceQuick ==
-  {With(b, 3, up, TRUE, FALSE, "ramp", TRUE) :
-     b \in {Base(2, 2, 2, 1, 1, 2, 1, 1), Base(1, 2, 2, 2, 2, 2, 2, 2)}, up \in {0, 5}}
+  {With(b, 3, up, TRUE, FALSE, "ramp", TRUE) : b \in MutBasesQuick, up \in {0, 2, 5}}
 
 MCSpaceFull == EncSpaceFull \cup MutSpaceFull
 MCSpaceQuick == EncSpaceQuick \cup MutSpaceQuick
